@@ -275,6 +275,18 @@ def unified_enter_schema(schema_name: str | None, context: UnifiedCycleContext) 
     return result
 
 
+def unified_leave_without_parsing(context: UnifiedCycleContext) -> None:
+    """Balance an enter call that did NOT start parsing (existing schema, placeholder, cycle or depth cut).
+
+    Such an enter only counted the depth; it pushed nothing. The stack entry and the IN_PROGRESS state of that
+    name - if any - belong to an ANCESTOR call that is still parsing the schema: a full exit here would pop the
+    ancestor off the stack and mark it COMPLETED, after which the same reference is followed again and the
+    schema is parsed a second time from inside itself (duplicate registrations for `pet` / `Pet`).
+    """
+    if context.recursion_depth > 0:
+        context.recursion_depth -= 1
+
+
 def unified_exit_schema(schema_name: str | None, context: UnifiedCycleContext) -> None:
     """Unified exit that always maintains consistent state."""
     if context.recursion_depth > 0:
